@@ -188,6 +188,8 @@ def _feeds_only_assert(b, local, depth=0):
                 continue
             if t["k"] == "drop":
                 continue
+            if t["k"] == "assert" and t.get("msg") != "BoundsCheck":
+                continue                      # the compiler's overflow check on the value itself
             if t["k"] != "switch":
                 return False
             tg = [x for _, x in t["targets"]] + [t["otherwise"]]
@@ -211,6 +213,36 @@ def _panics(b, bb, hops=0):
     return False
 
 
+_LOGGING = re.compile(r"^(std::io::_print|std::io::_eprint|core::fmt::|std::fmt::|alloc::fmt::format|std::io::stdio::|<.* as (core|std)::fmt::(Display|Debug|LowerHex|UpperHex)>::fmt)")
+
+
+def _only_logs(b, x, y):
+    """The two outcomes x / y of a test differ only in formatting / printing: the blocks exclusive to either side contain
+    nothing else and both sides meet again."""
+    if x == y:
+        return False
+    rx, ry = b.reachable_from(x), b.reachable_from(y)
+    region = (rx - ry) | (ry - rx)
+    if not region or len(region) > 60 or not (rx & ry):
+        return False
+    if not any(b.term(r)["k"] == "call" for r in region):
+        return False
+    for r in region:
+        t = b.term(r)
+        if t["k"] == "return":
+            return False
+        if t["k"] == "call":
+            n = callee_def(t)
+            if not (_LOGGING.search(n) or re.search(r"fmt::Arguments|fmt::rt::Argument|Arguments::<'_>::new", n)):
+                # pure getters used as print arguments are fine when their value goes nowhere else
+                dl = t.get("dest", {}).get("l")
+                if dl is None or not _feeds_only_assert(b, dl):
+                    return False
+        elif t["k"] not in ("goto", "switch", "assert", "drop"):
+            return False
+    return True
+
+
 def thresholds(F, fns):
     """Global multiset of normalised `value vs constant` decisions in the given (looping) functions.
     A comparison of an unsigned value X with a constant K is a cut of X's domain: X < K, X <= K-1, !(X >= K) ... all
@@ -227,6 +259,8 @@ def thresholds(F, fns):
             tg = [x for _, x in st["targets"]] + [st["otherwise"]]
             if any(_panics(b, x) for x in tg):
                 continue        # assertion, not a decision of the algorithm
+            if len(tg) == 2 and (_only_logs(b, tg[0], tg[1]) or _only_logs(b, tg[1], tg[0])):
+                continue        # `if cond { println!(..) }`: both outcomes continue identically
             dp = op_place(st["d"])
             if dp is None:
                 continue
